@@ -392,7 +392,8 @@ def run(ctx, replay=None):
         cases = [replay["case"]]
         exh = [c for c in cases if c["kind"] == "exh"]
     else:
-        n_fit, n_ker, n_no = (140, 120, 8) if quick else (1500, 800, 30)
+        # a fit case costs about 0.4 s in the compiled child (9 estimator calls): this bounds the thorough count
+        n_fit, n_ker, n_no = (140, 120, 8) if quick else (800, 800, 30)
         exh = exhaustive_cases(ctx.rng, 7 if quick else 9)
         cases = CORPUS + exh + [gen_fit(ctx.rng) for _ in range(n_fit)] + [gen_kernel(ctx.rng) for _ in range(n_ker)] + \
             [gen_nofit(ctx.rng) for _ in range(n_no)]
@@ -429,8 +430,11 @@ def run(ctx, replay=None):
         impl = (impl or []) + [None] * (len(cases) - done)
     other_modes = (("NUMBA_DISABLE_JIT=1", ipy, info_py), ("NUMBA_BOUNDSCHECK=1", ibc, info_bc))
     ctx.coverage["modes"] = {"compiled": len(cases), "NUMBA_DISABLE_JIT=1": len(ipy or []), "NUMBA_BOUNDSCHECK=1": len(ibc or [])}
-
+    import time
+    t_coq = time.time()
     model = C.coq_eval_sharded("C09", HEADER, [coq_case(c, r) for c, r in zip(cases, impl)], shard=60)
+    ctx.coverage["wall_s"] = {"compiled": info["wall_s"], "NUMBA_DISABLE_JIT=1": info_py["wall_s"],
+                              "NUMBA_BOUNDSCHECK=1": info_bc["wall_s"], "coq_model": round(time.time() - t_coq, 1)}
     n_corr = n_or = n_strings = n_sound = 0
     corr_bad = []
     for c, r, m in zip(cases, impl, model):
